@@ -1,4 +1,6 @@
 import SpoxModel.Lemmas.ValueProp
+import SpoxModel.Model.VPAdapt
+import SpoxModel.Generated.VPValueReaders
 /-!
 # C15 - value propagation is fail-safe under backend faults
 
@@ -490,5 +492,62 @@ theorem tensor_value_never_object (sel : BackendSel) (e : DT) (s : Shape) (v : R
     | «opaque» pid' => simp [leafOrt] at h
     | ragged => simp [leafOrt] at h
     | list xs => simp [leafOrt] at h
+
+
+/-! ### the build does not look at propagated values (last clause: "switching propagation off changes no
+    built model's behaviour") -/
+
+/-- `adapt_node` never turns a propagated value into an initializer of the adapter model. -/
+theorem adapt_initializers_nil (ins : List AdaptIn) : adaptInitializers ins = [] := by
+  unfold adaptInitializers
+  have : (ins.filter fun i => isBareNdarray i.value) = [] := by
+    apply List.filter_eq_nil_iff.mpr
+    intro i _
+    cases i.value <;> simp [isBareNdarray]
+  simp [this]
+
+/-- **adapter_value_blind.** The adapter model of a node is the same whatever values its input Vars
+    carry (none at all with propagation off, the backend's with it on): it depends on field keys, graph
+    names and types only. So the version-converted nodes of the built model do not depend on the
+    value-propagation backend. -/
+theorem adapter_value_blind (ins1 ins2 : List AdaptIn)
+    (h : ins1.map (fun i => (i.key, i.name, i.type)) = ins2.map (fun i => (i.key, i.name, i.type))) :
+    adapterModel ins1 = adapterModel ins2 := by
+  have hn : ins1.map (fun i => (i.name, i.type)) = ins2.map (fun i => (i.name, i.type)) := by
+    have := congrArg (List.map fun (p : String × String × Ty) => (p.2.1, p.2.2)) h
+    simpa [List.map_map, Function.comp_def] using this
+  simp [adapterModel, adapt_initializers_nil, hn]
+
+/-- The readers / writers of a Var's propagated value the model accounts for: `Node.inference` (merge),
+    `StandardNode` (singleton model for type inference and propagation), `_Inline.propagate_values`, `Var`
+    itself, `unsafe_cast` (copies by contract), the repr helpers - and on the BUILD path exactly the two
+    never-true expressions of `adapt_node` modelled by `isBareNdarray`. `_deref` / `_get_build_result`
+    read `_value` fields of other classes (attribute references, the cached build result). -/
+def modelledReader : String × String × String → Bool
+  | ("_adapt.py", "adapt_node", "from_array(var._value, name)") => true
+  | ("_adapt.py", "adapt_node", "isinstance(var._value, np.ndarray)") => true
+  | ("_graph.py", "Graph._get_build_result", "self._build_result._value is None") => true
+  | ("_attributes.py", "_deref", _) => true
+  | ("_inline.py", "_Inline.propagate_values", _) => true
+  | ("_internal_op.py", "unsafe_cast", _) => true
+  | ("_node.py", "Node.inference", _) => true
+  | ("_node.py", "Node.signature.fmt_input", _) => true
+  | ("_standard.py", "StandardNode.propagate_values_onnx", _) => true
+  | ("_standard.py", "StandardNode.to_singleton_onnx_model", _) => true
+  | ("_var.py", "Var.__init__", _) => true
+  | ("_var.py", "Var.__repr__", _) => true
+  | ("_var.py", "Var._get_value", _) => true
+  | _ => false
+
+/-- **generated_value_readers_modelled** (tie G): on the source tree of this run nothing else touches a
+    Var's propagated value, and `adapt_node` still reads it only through the never-true test. -/
+theorem generated_value_readers_modelled :
+    Generated.VPValueReaders.readers.all modelledReader = true := by decide
+
+/-- non-vacuity: two input lists differing only in values give the same adapter model; and the model does
+    depend on names and types. -/
+example : adapterModel [⟨"A", "x", tI64x2, none⟩, ⟨"B", "A", tI64x2, none⟩] =
+    adapterModel [⟨"A", "x", tI64x2, some (PropValue.new tI64x2 (.arr .i64 [2] 7))⟩, ⟨"B", "A", tI64x2, none⟩] := by decide
+example : adapterModel [⟨"A", "x", tI64x2, none⟩] ≠ adapterModel [⟨"A", "y", tI64x2, none⟩] := by decide
 
 end C15
